@@ -273,6 +273,13 @@ def wl_sketch(ctx, rng, case):
                 s.remove(kk, n)
                 true[kk] -= n
                 case.op("remove", kk, n)
+            if cls_name != "HeavyHitters" and rng.random() < 0.12:
+                # removal of a key that was never added / over-removal: counters go negative (a reachable state)
+                k3 = rng.choice(keys + ["never-added"])
+                n = rng.randint(1, 9)
+                s.remove(k3, n)
+                case.op("remove", k3, n)
+                ctx.count("sketch_states_with_over_removal")
         st = refimpl.parse_cms(bytes(s))
         if any(c in (refimpl.INT32_MAX, refimpl.INT32_MIN) for c in st["cells"]):
             ctx.count("saturated_states")
@@ -424,6 +431,6 @@ PROP = Prop(
                  "heavy-hitter / threshold parameters; confidence / error rate of a sketch sized that way are not compared",
                  "rates the format stores as 32-bit floats are compared after narrowing",
                  "a Bloom union whose array is completely set (element count -1) is not exported (no property claims that state is exportable)"],
-    required=["reload_comparisons", "payload_comparisons", "saturated_states", "states_after_growth_or_rotation", "cases_with_zero_fingerprint_key",
+    required=["reload_comparisons", "payload_comparisons", "saturated_states", "sketch_states_with_over_removal", "states_after_growth_or_rotation", "cases_with_zero_fingerprint_key",
               "states_with_partially_filled_buckets", "channel.hex_string", "channel.filepath", "channel.frombytes", "channel.load_error_rate", "channel.ondisk_path"],
 )
